@@ -545,6 +545,7 @@ class ReleaseUnit(LimUnit):
             Case("not_a_borrower", when=lambda pre, a: z3.Not(bset(pre, a.self).has(a.cur)), raises="RuntimeError", ensures=lambda pre, post, a, ret: [("unchanged", unchanged(pre, post, a.self))]),
             Case("released", when=lambda pre, a: bset(pre, a.self).has(a.cur), ensures=lambda pre, post, a, ret: [("current_task_no_longer_borrows", z3.Not(bset(post, a.self).has(a.cur)))]),
         ],
+        modifies={(QC, "lo"), (QC, "has"), (SC, "mem"), (SC, "card"), ("AEvent", "flag")},
         bind=bind_self,
     )
 
